@@ -12,7 +12,7 @@ def ty_after(ty, a):
         return ("p", U, ty)
     if k == "zip":
         return ("p", ty, U)
-    if k in ("map", "filter_map", "flat_map"):
+    if k in ("map", "filter_map", "flat_map", "flatten"):
         return U
     return ty
 
@@ -58,6 +58,9 @@ def adapters_text(chain, std):
             t = "filter_map(|%s| { let k = %s; if k %% 3 == 0 { None } else { Some(k) } })" % (p, key)
         elif k == "flat_map":
             t = "flat_map(|%s| { let k = %s; k..k + 2 })" % (p, key)
+        elif k == "flatten":
+            # the model's "flatten" = map to the range k..k+2, then flatten()
+            t = ("map(|%s| { let k = %s; k..k + 2 })" % (p, key)) + (".flatten()" if std else ", flatten()")
         elif k == "map":
             t = "map(|%s| %s + %d)" % (p, key, n)
         elif k == "rev":
@@ -90,7 +93,7 @@ def real_ty(chain):
             ty = "(usize, %s)" % ty
         elif k == "zip":
             ty = "(%s, u64)" % ty
-        elif k in ("map", "filter_map", "flat_map"):
+        elif k in ("map", "filter_map", "flat_map", "flatten"):
             ty = "u64"
     return ty
 
